@@ -52,7 +52,7 @@ class C16(Check):
         "all live objects incl. every interned default) are unsat queries per path.  Metaclass rejections are enumerated class bodies."
     )
     assumptions = [
-        "class pool of 4 render classes; 1 integer field per namespace; at most 2 namespaces in the constructor and 2 further operations",
+        "class pool of 4 render classes; 1 integer field per namespace (+ one field-inheriting subclass per namespace class); at most 2 namespaces in the constructor and 2 further operations",
         "Python's hash of tuples/ints modelled as uninterpreted functions (congruence only)",
     ]
     bounds = {"quick": {"extra_ops": 1}, "thorough": {"extra_ops": 2}}
@@ -99,6 +99,8 @@ class C16(Check):
             if owners >> i & 1:
                 ns2[name] = type(name + "Args", (ArgsNamespace,), {"__annotations__": {"x": "int"}, "x": 10 + i}, render_cls=cls2[name])
         self.cls, self.ns = cls2, ns2
+        # "inheriting fields": a namespace subclass without fields of its own is associated with the same render class
+        self.sub = {n: type(n + "SubArgs", (k,), {}) for n, k in ns2.items()}
 
     # ------------------------------------------------------------------ helpers
     def holds(self, args, name):
@@ -133,11 +135,16 @@ class C16(Check):
         live = list(defaults.values())
         snap0 = self.snapshot(live)
 
+        # namespaces handed to the operations are instances of the field-inheriting subclasses on half of the paths; the set
+        # rebuilt for the eq/hash comparison then uses the other kind
+        use_sub = [False]
+
         def new_ns(tag):
             """a namespace of a solver-chosen owning class with a symbolic value"""
             k = eng.choice(f"{tag}_cls", len(owners))
             v = eng.int(f"{tag}_val")
-            return owners[k], v, ns[owners[k]](v)
+            klass = self.sub[owners[k]] if use_sub[0] else ns[owners[k]]
+            return owners[k], v, klass(v)
 
         # --- initial set
         ik = eng.choice("init_kind", 4)
@@ -158,6 +165,7 @@ class C16(Check):
                     init_vals = {n: term(v) for n, v in vals.items()}
                     live.append(init)
         nn = eng.choice("n_namespaces", 3)
+        use_sub[0] = bool(eng.bool("namespaces_are_field_inheriting_subclasses"))
         given = [new_ns(f"ns{j}") for j in range(nn)]
         snap = self.snapshot(live)
         eng.step("construct")
@@ -195,7 +203,8 @@ class C16(Check):
                   z3.And(*[self.holds(a, n) == v for n, v in exp_vals.items()]) if exp_vals else True)
         eng.claim("constructor: holds a namespace exactly for the classes in the hierarchy that own one", set(a._namespaces) == {cls[n] for n in self.expected_members(tname)})
         # equal sets hash equal: rebuild the same set through another route
-        b = RenderArgs(tcls, *[ns[n](SymIntOf(v)) for n, v in exp_vals.items()])
+        other = ns if use_sub[0] else self.sub
+        b = RenderArgs(tcls, *[other[n](SymIntOf(v)) for n, v in exp_vals.items()])
         eq = a == b
         eng.claim("two sets with equal constituents compare equal", eq is True or (isinstance(eq, bool) and eq))
         eng.claim("equal sets hash equal", term(a.__hash__()) == term(b.__hash__()) if exp_vals else hash(a) == hash(b))
